@@ -412,7 +412,15 @@ Record actions := {
 
 Record stmt := { st_name : N; st_conds : list cond; st_disp : option disp; st_act : actions }.
 Record policy := { p_name : N; p_stmts : list stmt }.
-Record assignment := { as_disp : disp; as_pols : list policy }.
+(* as_needs_rpki is the cached PolicyAssignment::needs_rpki: computed when the
+   assignment is built, read by the daemon to decide whether evaluation gets the
+   RPKI table at all *)
+Record assignment := { as_disp : disp; as_pols : list policy; as_needs_rpki : bool }.
+
+(* PolicyAssignment::compute_needs_rpki *)
+Definition is_rpki_cond (c : cond) : bool := match c with CRpki _ => true | _ => false end.
+Definition compute_needs_rpki (l : list policy) : bool :=
+  existsb (fun p => existsb (fun s => existsb is_rpki_cond (st_conds s)) (p_stmts p)) l.
 
 (* the mutable route state threaded through evaluation *)
 Record rstate := { r_attrs : list attr; r_nh : option nexthop }.
